@@ -280,6 +280,43 @@ fn judge_grid(case: &Case, l: &mut Local) {
                 let untouched = with_uv.faces().len() == f1.len() && with_uv.vertices().len() == v.len() && plain2.faces().len() == f1.len();
                 l.check("appending is refused when either mesh carries a UV map, and changes nothing", "", r1.is_err() && r2.is_err() && untouched, mk, || format!("uv.append(plain) {:?}, plain.append(uv) {:?}, faces {} and {}", r1.is_ok(), r2.is_ok(), with_uv.faces().len(), plain2.faces().len()));
             }
+            // a plate with two skins that share one top-down projection: both skins map to the same UV triangles, and
+            // every face still keeps its own UV triangle
+            if !mirrored {
+                let n = v.len() as u32;
+                let mut v2 = v.clone();
+                v2.extend(v.iter().map(|p| p - Vector3::new(0.0, 0.0, 0.4)));
+                let mut f2 = f1.clone();
+                f2.extend(f1.iter().map(|t| [t[0] + n, t[2] + n, t[1] + n]));
+                let mut uv2 = uv.clone();
+                uv2.extend(uv.iter().cloned());
+                let uv_all = uv2.clone();
+                match UvMapping::new(uv2, f2.clone()) {
+                    Ok(pm) => {
+                        l.eval();
+                        l.bucket("two skins sharing one UV projection");
+                        let kept = pm.faces().len() == f2.len() && pm.faces().iter().zip(f2.iter()).all(|(a, b)| a == b);
+                        let mp = Mesh::new_with_uv(v2.clone(), f2.clone(), false, Some(pm));
+                        let mut ok = kept;
+                        for (fi, t) in f2.iter().enumerate() {
+                            let c3 = Point3::from((v2[t[0] as usize].coords + v2[t[1] as usize].coords * 2.0 + v2[t[2] as usize].coords) / 4.0);
+                            let lift = if fi < f1.len() { 0.01 } else { -0.01 };
+                            let q = c3 + Vector3::new(0.0, 0.0, lift);
+                            // (the way back from UV to 3D cannot tell the skins apart; the way there must name the
+                            // UV position inside the face's OWN triangle)
+                            let want = Point2::from((uv_all[t[0] as usize].coords + uv_all[t[1] as usize].coords * 2.0 + uv_all[t[2] as usize].coords) / 4.0);
+                            match guarded(|| mp.uv_with_tol(&q, 0.1, 0.5, None)) {
+                                Ok(Some((uvp, _))) => ok &= d2(&uvp, &want) <= 1e-9,
+                                _ => ok = false,
+                            }
+                        }
+                        l.check("every face keeps its own UV triangle when two skins share a projection", "", ok, mk, || format!("{} UV triangles for {} faces", mp.uv().map(|u| u.faces().len()).unwrap_or(0), f2.len()));
+                    }
+                    Err(e) => {
+                        l.check("every face keeps its own UV triangle when two skins share a projection", "err", false, mk, || e.to_string());
+                    }
+                }
+            }
             // the same sheet as an atlas: every face owns its three UV vertices (numbering unrelated to the mesh's),
             // and measured points below the surface as well as above it
             if !mirrored {
